@@ -56,6 +56,10 @@ func vhDoc(tag string, kind, depth, cap int) Document {
 		n := nondetRange(tag+".items", 0, vParam("items", 1))
 		ik := nondetChoice(tag+".itemkind", vhDocContainer+boolToInt(depth > 1))
 		items := make([]Document, n)
+		if n == 0 && nondetBool(tag+".items.nil") {
+			// a page past the end: no items at all, but a total
+			items = nil
+		}
 		for i := 0; i < n; i++ {
 			items[i] = vhDoc(tag+".it", ik, depth-1, cap)
 		}
